@@ -32,6 +32,7 @@ func c03Scenarios(cfg runCfg) []Scenario {
 		out = append(out, Scenario{Family: "fuzz", Seed: mix(cfg.seed, 3, uint64(i)), N: 400})
 		out = append(out, Scenario{Family: "prng", Seed: mix(cfg.seed, 3, uint64(i)), N: 100})
 	}
+	out = append(out, Scenario{Family: "make-scopes", Seed: mix(cfg.seed, 3, 77, uint64(cfg.shard))})
 	return out
 }
 
@@ -110,6 +111,22 @@ func countCtors(res *Result, desc string) {
 }
 
 func c03Run(t *testing.T, sc Scenario, res *Result) {
+	if sc.Family == "make-scopes" {
+		// same-named types from different scopes, used one after the other in one process
+		for i, gx := range []*GX{mkLocalA(), mkLocalB(), mkLocalA()} {
+			for s := 0; s < 5; s++ {
+				v, ok := safeExampleVal(gx, int(sc.Seed%1000)+s)
+				res.inc("values_checked")
+				if !ok {
+					res.violate(sc, "c03/make-scope", fmt.Sprintf("%s (use %d) panicked: %v", gx.Desc, i, v), nil)
+				} else if c := gx.Check(v); c != "" {
+					res.violate(sc, "c03/make-scope", "out-of-contract value: "+c, nil)
+				}
+			}
+		}
+		res.inc("make_scope_rounds")
+		return
+	}
 	r := newRng(sc.Seed)
 	depth := r.intn(4)
 	gx := buildGX(r, gxOpts{depth: depth})
@@ -121,8 +138,19 @@ func c03Run(t *testing.T, sc Scenario, res *Result) {
 	var lastVals []string
 	prop := func(rt *rapid.T) {
 		lastVals = lastVals[:0]
+		var held []any
+		defer func() {
+			// values handed out earlier in the case must still be in contract when the case ends
+			// (a generator must not keep writing into memory it already returned)
+			for _, v := range held {
+				if c := gx.Check(v); c != "" && complaint == "" {
+					complaint = "a value returned earlier in the test case changed afterwards: " + c
+				}
+			}
+		}()
 		for i := 0; i < ndraws; i++ {
 			v := gx.Gen.Draw(rt, "")
+			held = append(held, v)
 			returned++
 			if c := gx.checkAll(v); c != "" && complaint == "" {
 				complaint = c
@@ -212,4 +240,13 @@ func c03Run(t *testing.T, sc Scenario, res *Result) {
 			}()
 		}
 	}
+}
+
+func safeExampleVal(gx *GX, seed int) (v any, ok bool) {
+	defer func() {
+		if p := recover(); p != nil {
+			v, ok = p, false
+		}
+	}()
+	return gx.Gen.Example(seed), true
 }
